@@ -37,34 +37,49 @@ fn spawn_worker(engine: &str, tier: Tier, seed: u64, first: u64, stride: u64, li
     cmd.spawn().expect("spawn worker")
 }
 
-/// What became of a worker: its report, or the run index it died in
-enum Collected {
-    Report(WorkerReport),
-    Died { index: Option<u64>, how: String },
+/// What a worker slot (first, stride) produced: the reports of the processes that
+/// served it one after the other, and the run indices during which one died
+struct Slot {
+    reports: Vec<WorkerReport>,
+    died: Vec<(u64, String)>,
 }
 
-fn collect(child: std::process::Child) -> Result<Collected, String> {
-    let mut child = child;
-    let pid = child.id();
-    let mut text = String::new();
-    if let Some(mut out) = child.stdout.take() {
-        out.read_to_string(&mut text).map_err(|e| e.to_string())?;
-    }
-    let status = child.wait().map_err(|e| e.to_string())?;
-    if !status.success() {
+/// Serve one slot to completion: a process that dies (hang, abort) or stops because a
+/// run tainted it is succeeded by a fresh process continuing at the next run index
+fn serve_slot(engine: String, tier: Tier, seed: u64, first: u64, stride: u64, limit: Option<u64>) -> Result<Slot, String> {
+    let mut slot = Slot { reports: Vec::new(), died: Vec::new() };
+    let mut first = first;
+    for _generation in 0..10_000 {
+        let mut child = spawn_worker(&engine, tier, seed, first, stride, limit);
+        let pid = child.id();
+        let mut text = String::new();
+        if let Some(mut out) = child.stdout.take() {
+            out.read_to_string(&mut text).map_err(|e| e.to_string())?;
+        }
+        let status = child.wait().map_err(|e| e.to_string())?;
         let path = engine::current_index_file(pid);
-        let index = std::fs::read(&path).ok().and_then(|b| b.get(..8).map(|s| u64::from_le_bytes(s.try_into().unwrap())));
-        let _ = std::fs::remove_file(&path);
-        return Ok(Collected::Died { index, how: format!("{status}") });
+        if status.success() || status.code() == Some(engine::EXIT_TAINTED) {
+            let _ = std::fs::remove_file(&path);
+            let line = text.lines().last().unwrap_or("");
+            let report = serde_json::from_str::<WorkerReport>(line).map_err(|e| format!("bad worker report: {e}"))?;
+            let resume = report.resume_at;
+            slot.reports.push(report);
+            match resume {
+                Some(next) => first = next,
+                None => return Ok(slot),
+            }
+        } else {
+            let index = std::fs::read(&path).ok().and_then(|b| b.get(..8).map(|s| u64::from_le_bytes(s.try_into().unwrap())));
+            let _ = std::fs::remove_file(&path);
+            let Some(index) = index else {
+                return Err(format!("a worker died ({status}) before its first run"));
+            };
+            slot.died.push((index, format!("{status}")));
+            // what the dead process had done is lost with it; carry on after the fatal run
+            first = index + stride;
+        }
     }
-    let line = text.lines().last().unwrap_or("");
-    serde_json::from_str::<WorkerReport>(line).map(Collected::Report).map_err(|e| format!("bad worker report: {e}"))
-}
-
-/// Read all children concurrently (a worker blocks on a full pipe otherwise)
-fn collect_all(children: Vec<std::process::Child>) -> Vec<Result<Collected, String>> {
-    let handles: Vec<_> = children.into_iter().map(|c| std::thread::spawn(move || collect(c))).collect();
-    handles.into_iter().map(|h| h.join().unwrap_or_else(|_| Err("collector thread panicked".to_string()))).collect()
+    Err("a worker slot needed more than 10000 processes".to_string())
 }
 
 struct EngineResult {
@@ -81,39 +96,34 @@ fn run_engine(engine: &str, tier: Tier, seed: u64, workers: usize) -> Result<Eng
         Tier::Quick => 48,
         Tier::Thorough => 1024,
     };
-    let mut children = Vec::new();
-    for w in 0..workers {
-        children.push(spawn_worker(engine, tier, seed, w as u64, workers as u64, None));
-    }
-    // The same first run indices once more, in other processes and another partition
+    // The main batch, plus the same first run indices once more in other processes and
+    // another partition; every slot is served by its own thread
     let det_workers = 3u64;
-    let mut det_children = Vec::new();
+    let mut threads = Vec::new();
+    for w in 0..workers {
+        let e = engine.to_string();
+        threads.push(std::thread::spawn(move || serve_slot(e, tier, seed, w as u64, workers as u64, None)));
+    }
     for w in 0..det_workers {
-        det_children.push(spawn_worker(engine, tier, seed, w, det_workers, Some(det_n)));
+        let e = engine.to_string();
+        threads.push(std::thread::spawn(move || serve_slot(e, tier, seed, w, det_workers, Some(det_n))));
     }
     let mut reports = Vec::new();
-    let mut deaths: Vec<ReplayFile> = Vec::new();
-    let all = collect_all(children.into_iter().chain(det_children).collect());
     let mut det_reports = Vec::new();
-    for (k, c) in all.into_iter().enumerate() {
-        match c? {
-            Collected::Report(r) => {
-                if k < workers {
-                    reports.push(r)
-                } else {
-                    det_reports.push(r)
-                }
-            }
-            Collected::Died { index, how } => {
-                let Some(index) = index else {
-                    return Err(format!("a worker died ({how}) before its first run"));
-                };
-                println!("note: engine={} a worker process died ({}) while executing run {}", engine, how, index);
+    let mut deaths: Vec<ReplayFile> = Vec::new();
+    for (k, t) in threads.into_iter().enumerate() {
+        let slot = t.join().map_err(|_| "slot thread panicked".to_string())??;
+        for (index, how) in slot.died {
+            println!("note: engine={} a worker process died ({}) while executing run {}", engine, how, index);
+            if !deaths.iter().any(|d| d.run_index == index) {
                 let file: ReplayFile = crate::dispatch!(engine, E => engine::plan_of::<E>(tier, seed, index));
-                if !deaths.iter().any(|d| d.run_index == index) {
-                    deaths.push(file);
-                }
+                deaths.push(file);
             }
+        }
+        if k < workers {
+            reports.extend(slot.reports);
+        } else {
+            det_reports.extend(slot.reports);
         }
     }
     let mut main_hashes: BTreeMap<u64, String> = BTreeMap::new();
